@@ -114,15 +114,28 @@ def run(chk, replay=None):
         ("fn main() { let h: u32 = jet::tx_lock_height(); match jet::eq_32(h, witness::H) { true => assert!(jet::eq_32(jet::num_outputs(), witness::N)), false => assert!(witness::B), }; }", [("H", ("U", 5)), ("N", ("U", 5)), ("B", ("B",))]),
         ("fn main() { let s: u32 = jet::current_sequence(); match witness::E { Left(x: u32) => assert!(jet::eq_32(s, x)), Right(y: u16) => jet::check_lock_distance(y), }; }", [("E", ("E", ("U", 5), ("U", 4)))]),
     ]
+    # programs the Bit Machine refuses to run at all (more than 2^31 - 1 cells: many live copies of a 2^24-bit value): the unpruned
+    # program fails under every environment, so Some(env) must answer Err
+    def oversized(copies, wit):
+        t = "fn check(elt: u256, acc: u8) -> u8 { assert!(jet::eq_256(elt, elt)); acc }\nfn main() { let l0: List<u256, 65536> = %s;" % ("witness::L" if wit else "list![]")
+        for i in range(1, copies + 1):
+            t += " let l%d: List<u256, 65536> = l%d;" % (i, i - 1)
+        for i in range(copies + 1):
+            t += " assert!(jet::eq_8(fold::<check, 65536>(l%d, 7), 7));" % i
+        return t + " }"
+    eprogs += [(oversized(24, False), []), (oversized(30, True), [("L", ("L", ("U", 8), 16))])]
     envs = [(0, 0xffffffff, 0), (1000, 0, 0), (999, 0xfffffffe, 1), (500000001, 50, 0), (500000000, 0x00400031, 1), (0, 49, 0)]
     el = []
     for text, wts in eprogs:
-        for env in envs:
-            for _ in range(2 if quick else 8):
+        big = "65536" in text
+        for env in (envs[:2] if big else envs):
+            for _ in range(1 if big else (2 if quick else 8)):
                 vals = []
                 for n, t in wts:
                     if t[0] == "U":
                         vals.append((n, ("u", t[1], rng.choice([0, 1, 2, 49, 50, 51, 999, 1000, 1001, 500000000, 500000001, env[0], env[1] & 0xffff]) % (1 << (1 << t[1])))))
+                    elif t[0] == "L":
+                        vals.append((n, ("li", t[1], t[2], ())))
                     else:
                         vals.append((n, gen.gen_val(rng, t)))
                 el.append((text, vals, env, "(runpe %s () %s 0 (%d %d %d))" % (quote(text), corelib.bindings_sx(vals), env[0], env[1], env[2])))
@@ -134,7 +147,7 @@ def run(chk, replay=None):
             continue
         u, pr, rest = m.group(1), m.group(2), m.group(3)
         chk.count("env.%s.%s" % (u, pr))
-        good = (u == "ok" and pr == "ok" and "mexec=ok" in rest and "decode=ok" in rest) or (u == "fail" and pr == "sat")
+        good = (u == "ok" and pr == "ok" and "mexec=ok" in rest and "decode=ok" in rest) or (u in ("fail", "limits") and pr == "sat")
         if not good and not ("twins=yes" in rest or "depprune=same" in rest and "mexec=ok" in rest):
             chk.violation({"class": "prune-verdict", "what": "env %s: unpruned %s, pruned %s || %s" % (env, u, pr, text[:160])},
                           {"cmd": "core", "line": ln, "program": text, "witness": corelib.bindings_sx(vals), "environment": env, "implementation": x[:600],
@@ -143,6 +156,8 @@ def run(chk, replay=None):
     #      (a result remembered from an earlier call of the same object must not leak into a later one)
     sl = []
     for text, wts in eprogs:
+        if "65536" in text:
+            continue
         for _ in range(3 if quick else 12):
             vals = []
             order = list(envs)
